@@ -5,6 +5,8 @@
 //! trusted: R15 (statement slicing): revoke_and_ack: the unit extracts the statements from `let secret = ..` to the signer validation (the two acceptance gates), the provide_secret call and the three statements advancing the counterparty's commitment number and points, verbatim and in order; the state pre-checks before them (quiescent / not ready / disconnected / closing: all early Err returns), the signer's validate_counterparty_revocation, the monitor update and the HTLC state walk after them are dropped and not claimed; secp_check!(SecretKey::from_slice(..)) becomes the parameter `secret` (any valid scalar)
 //! trusted: env (revoke_and_ack): PublicKey::from_secret_key is external_body returning the uninterpreted point_of(secret); PublicKey equality is structural; ChannelState skeleton {awaiting_remote_revoke}; CounterpartyCommitmentSecrets::provide_secret (verified in u05a) is a stub recording (idx, secret) in a ghost log; mark_response_received external_body (frame: context untouched); ChannelError::close loses its message
 //! assume: 1 <= counterparty_next_commitment_transaction_number < 2^48
+//! trusted: R15 (statement slicing): channel_reestablish: the unit extracts everything between the `peer must be disconnected` pre-check and clear_peer_disconnected() - the commitment-number sanity test, the stale-state proof handling and the very-old-state warning - verbatim; the ~400 lines of retransmission logic after it are dropped and not claimed; error messages are dropped (R8); panic_on_stale_state is external_body `ensures false` (it panics on purpose); Signer::get_per_commitment_point unconstrained; HolderCommitmentPoint is a field skeleton whose accessors are verified on the real struct in u05b; SecretKey::from_slice external_body (Ok => the scalar is the given bytes)
+//! assume: HolderCommitmentPoint invariant: the last / previous revoked point is recorded once one / two commitments have been revoked; 1 <= next_transaction_number < 2^48 - 1
 //! trusted: R6: `for (htlc, counterparty_sig) in A.iter().zip(B.iter())` becomes an index loop over min(A.len(), B.len()) (std semantics of Iterator::zip) with the two bindings taken by index
 //! trusted: env: Secp256k1::verify_ecdsa is external_body whose result is Ok exactly when the uninterpreted predicate sig_valid(msg, sig, key) holds (any signature scheme); the sighash of the commitment transaction and the sighash of each second-stage HTLC transaction are opaque values (commitment_sighash / htlc_sighash_of(htlc), uninterpreted functions of the built transaction / the HTLC); PublicKey, Signature, Message opaque; CommitmentSigned skeleton {signature, htlc_signatures}; CommitmentTransaction skeleton with external_body nondust_htlcs() returning the stored list
 use vstd::prelude::*;
@@ -150,6 +152,85 @@ impl FundedChannel {
     != counterparty_current_commitment_point
 //@with
     != counterparty_current_commitment_point && false
+//@end
+}
+
+// ---- reconnection: never continue from a state the peer proves to be stale (R15 slice of FundedChannel::channel_reestablish) ----
+//@extract lightning/src/ln/channel.rs :: const INITIAL_COMMITMENT_NUMBER
+//@fold
+//@end
+impl SecretKey {
+    #[verifier::external_body] pub fn from_slice(b: &[u8; 32]) -> (r: Result<SecretKey, ()>) ensures r is Ok ==> r->Ok_0.0 == *b { unimplemented!() }
+}
+pub struct ChannelReestablish { pub next_local_commitment_number: u64, pub next_remote_commitment_number: u64, pub your_last_per_commitment_secret: [u8; 32] }
+pub struct Signer {}
+impl Signer {
+    #[verifier::external_body] pub fn get_per_commitment_point(&self, idx: u64, ctx: &Secp256k1) -> (r: Result<PublicKey, ()>) { unimplemented!() }
+}
+// field skeleton of HolderCommitmentPoint; the three accessors are verified on the real struct in unit u05b
+pub struct HolderCommitmentPoint { pub next_transaction_number: u64, pub previous_revoked_point: Option<PublicKey>, pub last_revoked_point: Option<PublicKey> }
+impl HolderCommitmentPoint {
+    #[verifier::external_body] pub fn previous_revoked_point(&self) -> (r: Option<PublicKey>) ensures r == self.previous_revoked_point { unimplemented!() }
+    #[verifier::external_body] pub fn last_revoked_point(&self) -> (r: Option<PublicKey>) ensures r == self.last_revoked_point { unimplemented!() }
+    #[verifier::external_body] pub fn current_transaction_number(&self) -> (r: u64) requires self.next_transaction_number < u64::MAX ensures r == self.next_transaction_number + 1 { unimplemented!() }
+}
+pub struct ReestCtx { pub secp_ctx: Secp256k1, pub holder_signer: Signer, pub signer_pending_stale_state_verification: Option<(u64, SecretKey)> }
+pub struct ReestChannel { pub context: ReestCtx, pub holder_commitment_point: HolderCommitmentPoint }
+pub enum ReestError { Close(u8), Warn(u8), WarnAndDisconnect(u8) }
+impl ReestError { #[verifier::external_body] pub fn close(_m: u8) -> (r: ReestError) { unimplemented!() } }
+pub trait Logger {}
+// how many of our commitments have been revoked so far, as channel_reestablish computes it
+pub open spec fn our_revoked_count(c: ReestChannel) -> int { INITIAL_COMMITMENT_NUMBER - (c.holder_commitment_point.next_transaction_number + 1) }
+impl ReestChannel {
+    // logs and panics on purpose (the peer proved we lost state): never returns
+    #[verifier::external_body] pub fn panic_on_stale_state<L: Logger>(logger: &L) ensures false { unimplemented!() }
+//@extract lightning/src/ln/channel.rs :: impl FundedChannel :: fn channel_reestablish
+//@strip msgs
+//@rw R15
+    fn channel_reestablish<L: Logger, NS: NodeSigner, CBP>($params:any) -> $ret where $w:any { if !self.context.channel_state.is_peer_disconnected() { $e0:any } $checks:any self.context.channel_state.clear_peer_disconnected(); $rest:any }
+//@with
+    fn reestablish_stale_state_checks<L: Logger>(&mut self, msg: &ChannelReestablish, logger: &L) -> Result<(), ReestError> {
+        $checks
+        Ok(())
+    }
+//@rw R8 *
+    ChannelError::close($m)
+//@with
+    ReestError::close(0)
+//@rw R8 *
+    ChannelError::WarnAndDisconnect($m)
+//@with
+    ReestError::WarnAndDisconnect(0)
+//@rw R8 *
+    ChannelError::Warn($m)
+//@with
+    ReestError::Warn(0)
+//@rw R9 *
+    .map_err(|_| $e)?
+//@with
+    .map_err(|_e: ()| -> (o: ReestError) { $e })?
+//@ret r
+//@requires
+    1 <= old(self).holder_commitment_point.next_transaction_number < INITIAL_COMMITMENT_NUMBER,
+    // representation invariant of HolderCommitmentPoint (established by advance(), unit u05b): after n >= 1 (n >= 2) revocations the last (previous) revoked point is recorded
+    our_revoked_count(*old(self)) >= 1 ==> old(self).holder_commitment_point.last_revoked_point is Some,
+    our_revoked_count(*old(self)) >= 2 ==> old(self).holder_commitment_point.previous_revoked_point is Some,
+//@ensures P C05 after-reconnection-the-channel-continues-only-if-the-peers-view-of-our-revocations-is-ours-or-one-behind-and-its-proof-secret-matches-the-revoked-point
+    r is Ok ==> 1 <= msg.next_local_commitment_number < INITIAL_COMMITMENT_NUMBER
+        && msg.next_remote_commitment_number as int <= our_revoked_count(*old(self))
+        && msg.next_remote_commitment_number as int + 1 >= our_revoked_count(*old(self))
+        && (msg.next_remote_commitment_number > 0 && msg.next_remote_commitment_number as int == our_revoked_count(*old(self))
+              ==> Some(point_of(SecretKey(msg.your_last_per_commitment_secret))) == old(self).holder_commitment_point.last_revoked_point)
+        && (msg.next_remote_commitment_number > 0 && msg.next_remote_commitment_number as int + 1 == our_revoked_count(*old(self))
+              ==> Some(point_of(SecretKey(msg.your_last_per_commitment_secret))) == old(self).holder_commitment_point.previous_revoked_point),
+//@mutant peer_ahead_of_us_tolerated
+    if msg.next_remote_commitment_number > our_commitment_transaction {
+//@with
+    if msg.next_remote_commitment_number > our_commitment_transaction + 1 {
+//@mutant proof_secret_not_compared
+    if expected_point != PublicKey::from_secret_key(&self.context.secp_ctx, &given_secret) { return Err(ChannelError::close("Peer sent a garbage channel_reestablish with secret key not matching the commitment height provided".to_owned())); } } else if msg.next_remote_commitment_number + 1 == our_commitment_transaction {
+//@with
+    } else if msg.next_remote_commitment_number + 1 == our_commitment_transaction {
 //@end
 }
 }
